@@ -18,9 +18,9 @@ from hypothesis import strategies as st
 
 from ..runner import Outcome, fail
 from ..strategies import chance
-from ..world import Ent
+from ..world import Ent, FAULT, InjectedFault, p_flaky
 
-from entity_query_language import an, entity, let, symbolic_mode, rule_mode, symbol, infer, From
+from entity_query_language import an, the, entity, let, symbolic_mode, rule_mode, symbol, infer, From, MultipleSolutionFound, NoSolutionFound
 from entity_query_language.symbolic import SymbolicExpression, Variable
 
 import importlib
@@ -54,7 +54,8 @@ def _case(draw, tier):
         if k == "new":
             ops.append(["new", c, draw(st.sampled_from(["positional", "keyword", "defaults"])), draw(st.integers(0, 3))])
         elif k == "sym":
-            ops.append(["sym", c, draw(st.sampled_from(["query", "rule"])), draw(st.sampled_from(["noargs", "kwargs"]))])
+            ops.append(["sym", c, draw(st.sampled_from(["query", "rule"])), draw(st.sampled_from(["noargs", "kwargs"])),
+                        draw(st.sampled_from(["plain", "plain", "after_raise", "after_abandon", "after_the_raises"]))])
         elif k == "infer":
             ops.append(["infer", c, draw(st.integers(0, 3))])
         elif k == "clear":
@@ -135,7 +136,28 @@ def check(case) -> Outcome:
                 inits = [c["inits"] for c in counters]
                 reg = _registry_ids()
                 ctx = symbolic_mode() if op[2] == "query" else rule_mode()
+                before_kind = op[4] if len(op) > 4 else "plain"
                 with ctx:
+                    if before_kind != "plain":
+                        # something was evaluated in this very block first, and did not run to completion: user code
+                        # raised (and was handled here), the consumer stopped after one result, or the(...) raised
+                        x_ = let(Ent, domain=list(src))
+                        try:
+                            if before_kind == "after_raise":
+                                FAULT.update(armed=True, calls=0, at=2)
+                                try:
+                                    list(an(entity(x_, p_flaky(x_, 0))).evaluate())
+                                finally:
+                                    FAULT.update(armed=False, calls=0, at=0)
+                            elif before_kind == "after_abandon":
+                                it_ = an(entity(x_, x_.a >= 0)).evaluate()
+                                next(it_, None)
+                                it_.close()
+                            else:
+                                the(entity(x_, x_.a >= 0)).evaluate()
+                        except (InjectedFault, MultipleSolutionFound, NoSolutionFound):
+                            pass            # (inside rule_mode() the small query selects an inferred variable: no solution)
+                        cls_set.add("symbolic_" + before_kind)
                     s = cls() if op[3] == "noargs" else cls(v=1)
                 if not isinstance(s, SymbolicExpression):
                     return fail("symbolic_construction_built_instance", f"step {step} {op}: K{op[1]} constructed inside "
